@@ -24,7 +24,9 @@ DRIVERS = ["drv_c14"]
 ANCHORS = [
     ("buidl/mnemonic.py", "mnemonic_to_bytes"), ("buidl/mnemonic.py", "bytes_to_mnemonic"),
     ("buidl/mnemonic.py", "WordList.__init__"), ("buidl/mnemonic.py", "WordList.__getitem__"),
-    ("buidl/mnemonic.py", "WordList.normalize"),
+    ("buidl/mnemonic.py", "WordList.normalize"), ("buidl/mnemonic.py", "WordList.__contains__"),
+    ("buidl/mnemonic.py", "WordList.__iter__"),
+    ("buidl/pbkdf2.py", "PBKDF2.hexread"), ("buidl/pbkdf2.py", "PBKDF2.close"),
     ("buidl/pbkdf2.py", "PBKDF2.read"), ("buidl/pbkdf2.py", "PBKDF2.__f"), ("buidl/pbkdf2.py", "PBKDF2._setup"),
     # pbkdf2.binxor is defined inside a module-level if/else: the fingerprint resolver of ./check does not reach it
     ("buidl/helper.py", "hmac_sha512_kdf"),
@@ -54,6 +56,10 @@ CLAUSES = {
                                        "pbkdf2_reads, pbkdf2_zero_iterations)",
     "seed = PBKDF2-HMAC-SHA512(normalised words, 'mnemonic'+passphrase, 2048, 64)": "proved relative to the PRF (from_mnemonic_seed, "
                                                                                     "from_mnemonic_rejects, kdf_parameters)",
+    "object reuse (one PBKDF2 / WordList object used repeatedly)": "proved: any chunking of reads on one object returns the consecutive "
+        "pieces of the RFC 2898 stream (pbkdf2_reads, history_of_reads), hexread = hex of read (hexread_spec), after close() every "
+        "read raises (history_after_close), lookups are pure (normalize_spec, lookup_unknown, contains_iff, split_join, split_fields); "
+        "correspondence: kinds pbkdf2_history, contains, *:again (every query twice), predicates pbkdf2_history, wordlist_history",
     "BIP32 master derivation from the seed": "hand-off proved (from_mnemonic_handoff: from_seed is applied to exactly that seed); the "
                                              "derivation itself is property C08; correspondence: ops master / predicate from_mnemonic",
 }
